@@ -63,9 +63,9 @@ CHECK_DEADLOCK FALSE
 """ % (depth, stack, tla_set(acts), tla_set(detail), thin, walks, walkseed, " ".join(invariants))
 
 
-def art_tree(fens, depth, detail, tag, workers=16, timeout=7200):
+def art_tree(fens, depth, detail, tag, workers=16, timeout=7200, heap="8g"):
     return vlib.tlc("ChessGame", game_cfg(depth, depth, ["Move"], detail),
-                    files={"roots.ndjson": roots_ndjson(fens)}, workers=workers, tag=tag, timeout=timeout)
+                    files={"roots.ndjson": roots_ndjson(fens)}, workers=workers, tag=tag, timeout=timeout, heap=heap)
 
 
 def art_walk(fens, num, depth, seed, detail, tag, workers=8, timeout=7200):
@@ -179,8 +179,13 @@ def shared(tier):
         a["att"] = art_tree(fens, 1, ["pseudo", "att"], "tree1att")
         a["walk"] = art_walk(fens, 64, 120, 1000 + SEED, ["mirror"], "walk")
     else:
-        a["tree"] = art_tree(fens, 3, ["pseudo", "san", "mirror"], "tree3", timeout=4 * 3600)
-        a["att"] = art_tree(fens, 2, ["pseudo", "att"], "tree2att", timeout=4 * 3600)
+        # depth 2 for every root (the quick artefact) and depth 3 for every fourth root, in batches: one TLC run over all roots
+        # at depth 3 needs more memory than this machine gives it
+        a["tree"] = art_tree(fens, 2, ["pseudo", "san", "mirror"], "tree2")
+        sub = fens[:6] + fens[6::4]
+        a["tree3"] = [art_tree(sub[i:i + 12], 3, ["pseudo", "san", "mirror"], "tree3-%d" % (i // 12), workers=12, timeout=4 * 3600, heap="14g")
+                      for i in range(0, len(sub), 12)]
+        a["att"] = art_tree(fens, 2, ["pseudo", "att"], "tree2att", timeout=4 * 3600, heap="14g")
         a["walk"] = art_walk(fens, 1024, 300, 1000 + SEED, ["mirror"], "walkT")
     return a
 
@@ -219,7 +224,7 @@ def deep_replay(ck, prop, tier):
 def std_chess_check(prop, tier, art_names, perft=0, level="model_checking", extra=None):
     ck = Check(prop, tier, level)
     arts = shared(tier)
-    use = [arts[n] for n in art_names]
+    use = [arts[n] for n in art_names] + (arts.get("tree3", []) if "tree" in art_names else [])
     for a in use:
         ck.add_tlc(a)
     res = chess_replay(use, [prop], perft=perft)
@@ -876,7 +881,8 @@ def check_C06(tier):
     import shutil
     fens = root_fens()
     # game trees with empty history: the tree artefact (depth 2 for all roots) and a deeper one for sparse roots
-    arts = [(shared(tier)["tree"], [1, 2] if quick else [1, 2, 3])]
+    arts = [(shared(tier)["tree"], [1, 2])] + [(a3, [1, 3]) for a3 in shared(tier).get("tree3", [])]
+    sampled = {a_ for a_, _ in arts}
     sparse = [f for f in sparse_fens() if int(f.split()[4]) <= 90][:(6 if quick else 16)]
     # depth 4 is the first depth at which a null-window result that is only a bound can be mistaken for a value
     arts.append((art_tree(sparse, 4, [], "mm-sparse", timeout=4 * 3600), [3, 4]))
@@ -891,11 +897,11 @@ def check_C06(tier):
             nodes[(o["root"], tuple(o["path"]))] = o
         maxd = max(depths)
         rootids = sorted({k[0] for k in nodes})
-        if art is arts[0][0]:
+        if art in sampled:
             # sample of roots: not terminal, clock <= 90
             cand = [r for r in rootids if nodes[(r, ())]["legal"] and roots[r - 1]["hmc"] <= 90]
             rng.shuffle(cand)
-            rootids = cand[:(20 if quick else 140)]
+            rootids = cand[:(20 if quick else 140 if art is arts[0][0] else 5)]
         # leaf values from the engine's evaluator (fresh position from FEN)
         leaves = [(k, o) for k, o in nodes.items() if k[0] in rootids and len(k[1]) in depths]
         run = vlib.scratch("leaf")
